@@ -582,3 +582,119 @@ pub fn tfee(seed: u64, n: usize, out: &mut Out) {
     }
     out.w.flush().unwrap();
 }
+
+/// C20 (conversions): the SDK's tick/price conversions, amount deltas, next-price functions, token estimates
+/// for liquidity and slippage helpers against the program's functions on the same inputs.
+pub fn sdkconv(seed: u64, n: usize, stride: i32, out: &mut Out) {
+    use orca_whirlpools_core as sdk;
+    quiet_panics();
+    let mut r = ChaCha8Rng::seed_from_u64(seed);
+    let res64 = |r: std::thread::Result<Result<u64, &'static str>>| match r {
+        Ok(Ok(v)) => json!({"ok": true, "v": nu(v as u128)}),
+        Ok(Err(e)) => json!({"ok": false, "v": 0, "err": e}),
+        Err(_) => json!({"ok": false, "v": 0, "err": "panic"}),
+    };
+    let res128 = |r: std::thread::Result<Result<u128, &'static str>>| match r {
+        Ok(Ok(v)) => json!({"ok": true, "v": nu(v)}),
+        Ok(Err(e)) => json!({"ok": false, "v": 0, "err": e}),
+        Err(_) => json!({"ok": false, "v": 0, "err": "panic"}),
+    };
+    let prog64 = |r: std::thread::Result<Result<u64, whirlpool::errors::ErrorCode>>| match r {
+        Ok(Ok(v)) => json!({"ok": true, "v": nu(v as u128)}),
+        Ok(Err(e)) => json!({"ok": false, "v": 0, "err": format!("{e:?}")}),
+        Err(_) => json!({"ok": false, "v": 0, "err": "panic"}),
+    };
+    let prog128 = |r: std::thread::Result<Result<u128, whirlpool::errors::ErrorCode>>| match r {
+        Ok(Ok(v)) => json!({"ok": true, "v": nu(v)}),
+        Ok(Err(e)) => json!({"ok": false, "v": 0, "err": format!("{e:?}")}),
+        Err(_) => json!({"ok": false, "v": 0, "err": "panic"}),
+    };
+    // ---- tick <-> price over a strided sweep (stride 1 = every tick)
+    let mut t = MIN_TICK + (seed % stride.max(1) as u64) as i32;
+    let mut chunk: Vec<Value> = vec![];
+    while t <= MAX_TICK {
+        let pp = sqrt_price_from_tick_index(t);
+        let ps: u128 = sdk::tick_index_to_sqrt_price(t).into();
+        let mut row = vec![json!(t), json!(pp == ps)];
+        for q in [pp.saturating_sub(1).max(MIN_SQRT_PRICE), pp, (pp + 1).min(MAX_SQRT_PRICE)] {
+            let a = tick_index_from_sqrt_price(&q);
+            let b: i32 = sdk::sqrt_price_to_tick_index(q.into());
+            row.push(json!(a == b));
+        }
+        chunk.push(Value::Array(row));
+        if chunk.len() == 512 {
+            out.emit(json!({"k": "sdk_ticks", "rows": std::mem::take(&mut chunk)}), true, format!("st{}", t / 65536));
+        }
+        t += stride.max(1);
+    }
+    if !chunk.is_empty() {
+        out.emit(json!({"k": "sdk_ticks", "rows": chunk}), true, "st".into());
+    }
+    // ---- amount deltas, next prices, token estimates, slippage
+    for _ in 0..n {
+        let (mut p0, mut p1) = (rand_price(&mut r), rand_price(&mut r));
+        let mut liq = rand_liq(&mut r);
+        // the corner where L * price (or L * price difference) reaches 2^192: prices near the maximum and
+        // very large liquidity; the program reports an overflow there
+        let hi = r.gen_bool(0.25);
+        if hi {
+            let lo_p = 1u128 << r.gen_range(80..96);
+            p0 = lo_p + r.gen::<u128>() % (MAX_SQRT_PRICE - lo_p);
+            p1 = lo_p + r.gen::<u128>() % (MAX_SQRT_PRICE - lo_p);
+            liq = (1u128 << r.gen_range(90..128)) | (r.gen::<u128>() >> r.gen_range(1..64));
+        }
+        let up = r.gen_bool(0.5);
+        let amt = rand_amount(&mut r);
+        let exact_in = r.gen_bool(0.5);
+        let pa = prog64(std::panic::catch_unwind(|| get_amount_delta_a(p0, p1, liq, up)));
+        let sa = res64(std::panic::catch_unwind(|| sdk::try_get_amount_delta_a(p0.into(), p1.into(), liq.into(), up)));
+        let pb = prog64(std::panic::catch_unwind(|| get_amount_delta_b(p0, p1, liq, up)));
+        let sb = res64(std::panic::catch_unwind(|| sdk::try_get_amount_delta_b(p0.into(), p1.into(), liq.into(), up)));
+        let pna = prog128(std::panic::catch_unwind(|| get_next_sqrt_price_from_a_round_up(p0, liq, amt, exact_in)));
+        let sna = res128(std::panic::catch_unwind(|| sdk::try_get_next_sqrt_price_from_a(p0.into(), liq.into(), amt, exact_in).map(|x| x.into())));
+        let pnb = prog128(std::panic::catch_unwind(|| get_next_sqrt_price_from_b_round_down(p0, liq, amt, exact_in)));
+        let snb = res128(std::panic::catch_unwind(|| sdk::try_get_next_sqrt_price_from_b(p0.into(), liq.into(), amt, exact_in).map(|x| x.into())));
+        out.emit(json!({"k": "sdk_conv", "p0": nu(p0), "p1": nu(p1), "L": nu(liq), "up": up, "amt": nu(amt as u128), "exactIn": exact_in,
+                        "progA": pa, "sdkA": sa, "progB": pb, "sdkB": sb, "progNextA": pna, "sdkNextA": sna, "progNextB": pnb, "sdkNextB": snb}), true, format!("sc:{}:{}", hi, (128 - liq.leading_zeros()) / 16));
+        // token estimates for liquidity vs the program's (Pinocchio) token deltas in a consistent pool state
+        {
+            use whirlpool::pinocchio::verif_export::ported::manager_liquidity_manager::pino_calculate_liquidity_token_deltas;
+            use whirlpool::pinocchio::verif_export::state::whirlpool::MemoryMappedPosition;
+            let sp_ = [1i32, 8, 64, 128][r.gen_range(0..4)];
+            let (lo, upb) = if hi {
+                let u = MAX_TICK / sp_ * sp_ - r.gen_range(0..50) * sp_;
+                (u - r.gen_range(1..3000) * sp_, u)
+            } else {
+                let lo = r.gen_range(-3000..3000) * sp_;
+                (lo, lo + r.gen_range(1..200) * sp_)
+            };
+            let (plo, pup) = (sqrt_price_from_tick_index(lo), sqrt_price_from_tick_index(upb));
+            let price = match r.gen_range(0..6) {
+                0 => plo,
+                1 => pup,
+                2 if upb < MAX_TICK => pup + 1 + r.gen::<u128>() % (sqrt_price_from_tick_index(upb + 1) - pup - 1).max(1),
+                3 => plo.saturating_sub(r.gen_range(1..1000)),
+                _ => plo + r.gen::<u128>() % (pup - plo),
+            };
+            let price = price.clamp(MIN_SQRT_PRICE, MAX_SQRT_PRICE);
+            let tick = tick_index_from_sqrt_price(&price);
+            let l = (if hi { liq } else { rand_liq(&mut r) }).min(i128::MAX as u128).max(1);
+            let mut bytes = vec![0u8; 216];
+            bytes[8 + 64 + 16..8 + 64 + 20].copy_from_slice(&lo.to_le_bytes());
+            bytes[8 + 64 + 20..8 + 64 + 24].copy_from_slice(&upb.to_le_bytes());
+            let mp: &MemoryMappedPosition = unsafe { &*(bytes.as_ptr() as *const MemoryMappedPosition) };
+            let delta: i128 = if up { l as i128 } else { -(l as i128) };
+            let pr = std::panic::catch_unwind(std::panic::AssertUnwindSafe(|| pino_calculate_liquidity_token_deltas(tick, price, mp, delta)));
+            let sr = std::panic::catch_unwind(|| sdk::try_get_token_estimates_from_liquidity(l, price, lo, upb, up));
+            let pj = match pr { Ok(Ok((a, b))) => json!({"ok": true, "a": nu(a as u128), "b": nu(b as u128)}), _ => json!({"ok": false, "a": 0, "b": 0}) };
+            let sj = match sr { Ok(Ok((a, b))) => json!({"ok": true, "a": nu(a as u128), "b": nu(b as u128)}), _ => json!({"ok": false, "a": 0, "b": 0}) };
+            out.emit(json!({"k": "sdk_est", "tick": tick, "price": nu(price), "lo": lo, "up": upb, "L": nu(l), "roundUp": up, "prog": pj, "sdk": sj}), true, format!("se:{hi}"));
+        }
+        // slippage helpers
+        let bps: u16 = if r.gen_bool(0.3) { [0u16, 1, 9999, 10000][r.gen_range(0..4)] } else { r.gen_range(0..=10000) };
+        let mn = res64(std::panic::catch_unwind(|| sdk::try_get_min_amount_with_slippage_tolerance(amt, bps)));
+        let mx = res64(std::panic::catch_unwind(|| sdk::try_get_max_amount_with_slippage_tolerance(amt, bps)));
+        out.emit(json!({"k": "sdk_slip", "est": nu(amt as u128), "bps": bps, "min": mn, "max": mx}), true, "sl".into());
+    }
+    out.w.flush().unwrap();
+}
